@@ -13,8 +13,8 @@ META = {
     "technique": "bounded-exhaustive enumeration of suites x payload lengths on a real sender Transport; every "
                  "written packet decoded and verified by an independent RFC 4253/5647/OpenSSH-EtM receiver",
     "text": "Unencrypted framing and all 144 cipher x MAC x compression suites, both directions: every payload "
-            "length 1..72 (= 4 x 16 + 8, >= 4 periods of the padding formula for block sizes 8 and 16) plus "
-            "255, 256, 257, 4095, 4096, 32768, 35000, 65535, 65536, 70000, as one stateful stream per suite; key "
+            "length 1..72 (= 4 x 16 + 8, >= 4 periods of the padding formula for block sizes 8 and 16; thorough: "
+            "1..600) plus 255, 256, 257, 4095, 4096, 32768, 35000, 65535, 65536, 70000, as one stateful stream per suite; key "
             "switches between framing classes with and without strict-kex sequence reset. For every packet written: "
             "length field == bytes written, 4 <= padding <= 255, encrypted span (length excluded for EtM/GCM) a "
             "multiple of max(8, block size), MAC/tag of the negotiated size verifies over the RFC's input, decoded "
@@ -24,7 +24,9 @@ META = {
     "design_ref": "4/C03",
 }
 
-LENGTHS = tuple(range(1, 73)) + (255, 256, 257, 4095, 4096, 32768, 35000, 65535, 65536, 70000)
+BOUNDARY = (255, 256, 257, 4095, 4096, 32768, 35000, 65535, 65536, 70000)
+LENGTHS = tuple(range(1, 73)) + BOUNDARY
+LENGTHS_T = tuple(range(1, 601)) + BOUNDARY[3:]
 PTYPES = (94, 2, 80, 98, 255)
 SWITCH_L = (3, 20, 64, 9)
 SWITCH_REPS = (
@@ -54,7 +56,8 @@ def build_script(desc):
     {"part": "switch", "a": [...], "b": [...], "strict": bool, "k": int}."""
     if desc["part"] == "lengths":
         suite = desc["suite"]
-        return msgs(LENGTHS) if suite is None else [("switch",) + tuple(suite) + (False,)] + msgs(LENGTHS)
+        L = LENGTHS_T if desc.get("tier") == "thorough" else LENGTHS
+        return msgs(L) if suite is None else [("switch",) + tuple(suite) + (False,)] + msgs(L)
     a, b, strict, k = tuple(desc["a"]), tuple(desc["b"]), desc["strict"], desc["k"]
     m = msgs(SWITCH_L, salt0=300)
     return (m[:1] + [("switch",) + a + (strict,)] + m[1:1 + k] + [("switch",) + b + (strict,)] + m[1 + k:]
@@ -91,8 +94,11 @@ def check_script(direction, desc, acc, upto=None):
         elif not problems and inf.message != expect:
             problems.append("decoded-payload-differs-from-message")
         if problems:
+            # the decoder's cipher/MAC state is lost after a malformed packet and later problems of the same packet
+            # are consequences of the first: report the first clause of the first bad packet, skip the rest
             bad += 1
-            for pr in problems:
+            acc.count("packets_not_judged_after_first_problem", len(script) - idx - 1)
+            for pr in problems[:1]:
                 dims = {"framing": framing4(suite), "block": P.block_size(suite[0]) if suite else 8,
                         "zlib": bool(suite and suite[2] != "none"), "after-key-switch": nsw > 1}
                 if suite and framing4(suite) != "gcm":
@@ -100,6 +106,7 @@ def check_script(direction, desc, acc, upto=None):
                 P.sig_violation(acc, pr, dims, {"part": part, "suite": suite, "item": list(it), "decoded": inf.as_dict(),
                                     "wire_head": wire[:40]},
                               {"dir": direction, "desc": desc, "upto": idx})
+            break
         else:
             bs = P.block_size(suite[0]) if suite else 8
             acc.nt((framing4(suite), suite, len(expect) % bs if not (suite and suite[2] != "none") else "z",
@@ -122,11 +129,13 @@ def check_script(direction, desc, acc, upto=None):
 
 
 def do_suite(item, acc):
-    _, suite, direction = item
-    bad, chunks = check_script(direction, {"part": "lengths", "suite": list(suite) if suite else None}, acc)
+    _, suite, direction, tier = item
+    bad, chunks = check_script(direction, {"part": "lengths", "suite": list(suite) if suite else None,
+                                           "tier": tier}, acc)
     if not bad and suite in (None, P.all_suites()[0], P.all_suites()[-1]) and direction == "c2s":
         acc.sample({"suite": suite or "unencrypted", "dir": direction,
-                    "payload_lengths": "1..72 + " + repr(list(LENGTHS[72:])),
+                    "payload_lengths": "1..72 + " + repr(list(BOUNDARY)) if tier == "quick"
+                    else "1..600 + " + repr(list(BOUNDARY[3:])),
                     "wire_lengths_first_20": [len(c) for c in chunks[:20]]})
 
 
@@ -144,10 +153,10 @@ def run_item(item, acc):
 
 
 def items_for(tier):
-    items = [("suite", None, "c2s"), ("suite", None, "s2c")]
+    items = [("suite", None, "c2s", tier), ("suite", None, "s2c", tier)]
     for s in P.all_suites():
         for d in ("c2s", "s2c"):
-            items.append(("suite", s, d))
+            items.append(("suite", s, d, tier))
     reps = SWITCH_REPS if tier == "quick" else tuple(
         (c, m, z) for (c, m, _z) in SWITCH_REPS for z in P.COMPRESSIONS)
     for a in reps:
@@ -171,7 +180,7 @@ def main(tier):
     ck.merge(core.pmap(items, run_item))
     P.regroup(ck, {"framing": {"clear", "classic", "etm", "gcm"}, "block": {8, 16}, "zlib": {True, False},
                    "after-key-switch": {True, False}, "mac": set(P.MACS)})
-    ck.extra["bound"] = {"suites": len(P.all_suites()) + 1, "directions": 2, "payload_lengths": len(LENGTHS),
+    ck.extra["bound"] = {"suites": len(P.all_suites()) + 1, "directions": 2, "payload_lengths": len(LENGTHS if tier == "quick" else LENGTHS_T),
                          "max_payload": max(LENGTHS), "switch_pairs": len([i for i in items if i[0] == "switch"])}
     return ck.finish()
 
